@@ -583,6 +583,82 @@ def run_tuple_protocol(ctx, prop: str):
                'on the field order' % n)
 
 
+DJANGO_BASECOMMAND_METHODS = {
+    'execute', 'handle', 'run_from_argv', 'create_parser', 'add_arguments',
+    'add_base_argument', 'print_help', 'check', 'check_migrations',
+    'get_version',
+}
+
+
+def run_method_truthiness(ctx, prop: str):
+    """.98  `self.<name>` used as a condition where <name> is a method (of
+    the class hierarchy, or of Django's BaseCommand for management
+    commands) and is never assigned as an attribute: a bound method is
+    always true, so the branch is taken for every input (`if app_labels and
+    self.execute:` rejects every `evolve <app_label>` invocation)."""
+    p = ctx.program
+    files = anchor_files(prop) + EXTRA_FILES.get(prop.upper(), [])
+    mods = [m for m in p.modules.values() if m.relpath in files]
+    pid = prop.upper()
+    ctx.rule('R-%s.98' % pid)
+    n, hit = 0, False
+    for m in mods:
+        for c in m.classes.values():
+            methods = set()
+            assigned = set()
+            for k in c.mro():
+                methods |= {st.name for st in k.node.body if isinstance(
+                    st, (ast.FunctionDef, ast.AsyncFunctionDef)) and not any(
+                        'property' in (unparse(d)) or 'setter' in unparse(d)
+                        for d in st.decorator_list)}
+                if any(b.endswith('BaseCommand') for b in k.ext_bases):
+                    methods |= DJANGO_BASECOMMAND_METHODS
+                for x in ast.walk(k.node):
+                    if isinstance(x, ast.Attribute) and \
+                            isinstance(x.ctx, ast.Store) and \
+                            isinstance(x.value, ast.Name) and \
+                            x.value.id == 'self':
+                        assigned.add(x.attr)
+                for st in k.node.body:      # class-level attributes
+                    if isinstance(st, ast.Assign):
+                        for t in st.targets:
+                            if isinstance(t, ast.Name):
+                                assigned.add(t.id)
+            always = methods - assigned
+            for st in c.node.body:
+                if not isinstance(st, ast.FunctionDef):
+                    continue
+                for x in ast.walk(st):
+                    conds = []
+                    if isinstance(x, (ast.If, ast.While, ast.IfExp,
+                                      ast.Assert)):
+                        conds.append(x.test)
+                    if isinstance(x, ast.UnaryOp) and \
+                            isinstance(x.op, ast.Not):
+                        conds.append(x.operand)
+                    work = list(conds)
+                    while work:
+                        t = work.pop()
+                        if isinstance(t, ast.BoolOp):
+                            work.extend(t.values)
+                            continue
+                        n += 1
+                        if isinstance(t, ast.Attribute) and \
+                                isinstance(t.value, ast.Name) and \
+                                t.value.id == 'self' and t.attr in always:
+                            hit = True
+                            ctx.finding((m.name, '%s.%s' % (c.name, st.name)),
+                                        t, '%s.%s tests self.%s, which is a '
+                                        'method and never assigned: the '
+                                        'condition is true for every input' %
+                                        (c.name, st.name, t.attr),
+                                        key='method-used-as-condition:%s' %
+                                        t.attr)
+    ctx.counts['R-%s.98 conditions scanned for bound methods' % pid] = n
+    if n and not hit:
+        ctx.ok((mods[0].name, '*'), 'no condition tests a bound method')
+
+
 def run_options(ctx, prop: str):
     p = ctx.program
     files = anchor_files(prop)
